@@ -2,14 +2,16 @@
    Statements only.  [reachable] closes the initial state (stored counter c0, any number of
    senders with any number of messages each) under any sender taking any enabled step. *)
 From Coq Require Import List NArith Bool.
-From Wesh Require Import Model.C09_Seal Proofs.C09_Seal.
+From Coq Require Import String.
+From Wesh Require Import Model.C09_Seal Proofs.C09_Seal Model.C11_FirstUse Proofs.C11_FirstUse.
+From Wesh Require Import Gen.Seal GenFacts.SealFacts.
 Import ListNotations.
 Open Scope N_scope.
 
 (* the envelopes returned so far carry exactly c0+1, c0+2, ... in return order: pairwise
    distinct, gap-free, increasing; hence each message key / nonce (= counter) protects one payload *)
 Theorem C09_seal_counters_exact :
-  forall c0 lefts s, reachable (init c0 lefts) s -> emitted s = seqN (c0 + 1) (length (emitted s)).
+  forall c0 lefts s, reachable (init c0 lefts) s -> emitted s = seqN (c0 + 1) (List.length (emitted s)).
 Proof. exact seal_counters_exact. Qed.
 
 Theorem C09_counters_distinct :
@@ -19,6 +21,23 @@ Proof. exact counters_distinct. Qed.
 Theorem C09_stored_counter_monotone :
   forall c0 lefts s i s', reachable (init c0 lefts) s -> In s' (sstep s i) -> ctr s <= ctr s'.
 Proof. exact stored_counter_monotone. Qed.
+
+(* the chain the counters belong to exists ONCE: whoever uses a group first (PutGroup, a chain-key
+   announcement, a seal) creates the own chain key if it finds none; look-up and creation are one
+   critical section of the message mutex (generated skeleton of getOwnDeviceChainKeyForGroup, the
+   shape of Model.C11_FirstUse.fu_step), so for any number of first users and any schedule everybody
+   ends up with the key that is stored; looking it up under a shared lock and creating it afterwards
+   lets a second creator replace a chain that has already been used (counters restart) *)
+Theorem C09_first_use_one_chain :
+  (forall n sched s i j r r',
+     fu_run (fu_init n) sched = Some s ->
+     nth_error (fu_threads s) i = Some (TDone r) -> nth_error (fu_threads s) j = Some (TDone r') ->
+     r = r' /\ fu_store s = Some r) /\
+  (skel_own_chain_key = ["lock s.messageMutex"; "defer unlock s.messageMutex";
+                         "call getDeviceChainKeyForGroupAndDevice"; "call newDeviceChainKey"; "call registerChainKey"])%string /\
+  (exists s, urun (mkU None [UStart; UStart] 1) [0%nat; 1%nat; 0%nat; 1%nat] = Some s /\
+             u_threads s = [UDone 1; UDone 2] /\ u_store s = Some 2).
+Proof. exact (conj first_use_agreement (conj skel_own_chain_key_ok unlocked_first_use_disagrees)). Qed.
 
 (* every emitted envelope is the honest envelope of its counter, so a receiver that registered
    the chain key at c0 opens all of them with retries: C02_retry_completeness applies to the
@@ -33,3 +52,4 @@ Proof. eexists. vm_compute. repeat split. Qed.
 Print Assumptions C09_seal_counters_exact.
 Print Assumptions C09_counters_distinct.
 Print Assumptions C09_stored_counter_monotone.
+Print Assumptions C09_first_use_one_chain.
